@@ -28,7 +28,7 @@ ASSUMPTIONS = [
     "abandon is not an operation of the statement; the model resynchronises from the independent parser and accepts any prefix of the pending list (A9)",
     "a 'failed write' is a write that raises; generated non-conforming records are ones no encoder can encode (wrong Python type for long/string, unknown symbol, wrong fixed size, missing required field)",
 ]
-N = {"quick": 4800, "thorough": 200000}
+N = {"quick": 16000, "thorough": 400000}
 TIME_LIMIT = {"quick": 40, "thorough": 560}
 SHARDS = 16
 CODECS = ["null", "deflate", "bzip2", "xz"]
